@@ -30,6 +30,9 @@ pub struct Obj {
     pub poisoned: bool,
     /// this object's destructor was made to panic: its block may legitimately never be released
     pub drop_panicked: bool,
+    /// ... and it was not weakly held at that moment (or the arena was being dropped): the block
+    /// may stay allocated and counted for ever
+    pub leak_ok: bool,
 }
 
 impl Obj {
